@@ -141,7 +141,9 @@ func sendTask(queue chan *Promise, task *Promise) {
 	case queue <- task:
 	default:
 		go func() {
+			vhook("helper.try", task)
 			queue <- task
+			vhook("helper.sent", task)
 		}()
 	}
 }
